@@ -7,7 +7,7 @@ import numpy as np
 from ..common import Violation, Skip, guard, parse, extract, render, same_meaning, show, Ref, Invalid
 from ..harness import Part, step_budget
 from .. import gen, gates, gen_emul, refexec
-from ..model import is_int
+from ..model import is_int, walk
 
 PROPERTY = "C14"
 RULE = (
@@ -308,6 +308,12 @@ def _def_case(ch):
         kinds += ["unknown-gate", "arity", "kind", "macro-named-like-native", "kind-after-substitution"]
     if prog["macros"]:
         kinds.append("dup-macro")
+    called = {s[1] for s in walk(prog["body"]) if s[0] == "g"} | {s[1] for m in prog["macros"] for s in walk([m["body"]]) if s[0] == "g"}
+    called_macros = [m["name"] for m in prog["macros"] if m["name"] in called]
+    if mode == "native" and called_macros:
+        # faults by REMOVAL: every call text of the faulty program also occurs in the valid twin
+        # (which is parsed first, with the same gate-set object)
+        kinds += ["macro-removed", "macro-arity-changed"]
     kind = ch.pick(kinds)
     expect_stage = "parse"
     desc = kind
@@ -323,6 +329,18 @@ def _def_case(ch):
     elif kind == "dup-macro":
         m = copy.deepcopy(ch.pick(prog["macros"]))
         fault["macros"].append(m)
+    elif kind == "macro-removed":
+        name = ch.pick(called_macros)
+        fault["macros"] = [m for m in fault["macros"] if m["name"] != name]
+        desc = "macro-removed"
+    elif kind == "macro-arity-changed":
+        name = ch.pick(called_macros)
+        m = [m for m in fault["macros"] if m["name"] == name][0]
+        if m["params"] and ch.bool():
+            m["params"] = m["params"][:-1]
+        else:
+            m["params"] = m["params"] + ["zz_extra"]
+        desc = "macro-arity-changed"
     elif kind == "macro-named-like-native":
         fault["macros"].append({"name": ch.pick(names), "params": [], "body": ["seq", []]})
     elif kind == "unknown-gate":
@@ -372,6 +390,12 @@ def _fault_present(case):
     if d == "dup-macro":
         mn = [m["name"] for m in f["macros"]]
         return len(set(mn)) != len(mn)
+    if d in ("macro-removed", "macro-arity-changed"):
+        sig_f = {m["name"]: len(m["params"]) for m in f["macros"]}
+        sig_p = {m["name"]: len(m["params"]) for m in case["prog"]["macros"]}
+        callsf = {s[1] for s in gates_used} | {s[1] for m in f["macros"] for s in walk([m["body"]]) if s[0] == "g"}
+        changed = [n for n in sig_p if sig_f.get(n) != sig_p[n]]
+        return len(changed) == 1 and changed[0] in callsf and f["body"] == case["prog"]["body"]
     if d == "macro-named-like-native":
         return any(m["name"] in gates.KINDS for m in f["macros"])
     if d == "unknown-gate":
